@@ -52,6 +52,12 @@ def cases(tier, seed):
             for k in ("default", 2, 3, cfg["n"]):
                 for B_ in (1, 3):
                     out.append(dict(kind="smtwtp_multistart", cfg=cfg, B=B_, k=k, s=rnd.randrange(10**6)))
+    # FJSP / JSSP with the first move handed out by the environment's start rule
+    for cfg in envzoo.sched_configs("quick"):
+        if cfg["env"] in ("fjsp", "jssp") and cfg.get("pmax", 9) <= 99 and not cfg.get("stepwise") and not cfg.get("check_mask") and cfg["jobs"] <= 6:
+            for k in (2, 3, 6):
+                for B_ in ((2, 4) if tier == "quick" else (2, 3, 4, 7)):
+                    out.append(dict(kind="jobshop_multistart", cfg=cfg, B=B_, k=k, s=rnd.randrange(10**6)))
     # every fourth case decodes the same instance object twice without cloning it (evaluate a batch, evaluate it again):
     # the monitors watch the second episode
     for i, c_ in enumerate(out):
@@ -67,6 +73,8 @@ def run_case(ctx, case):
 
     if case["kind"] == "policy":
         return sweep.sched_policy_case(ctx, case, {"C07"})
+    if case["kind"] == "jobshop_multistart":
+        return sweep.jobshop_multistart_case(ctx, case, {"C07"})
     if case["kind"] == "smtwtp_multistart":
         return sweep.smtwtp_multistart_case(ctx, case, {"C07"})
     if case["kind"] == "ffsp_pomo":
